@@ -55,6 +55,7 @@ MEAN_T0 = 0.7
 MEAN_LIN = [1.5, -0.75, 0.4]
 MEAN_QUAD = [0.35, -0.2, 0.15]
 KNAME = {"SE": "SquaredExponential", "RQ": "RationalQuadratic", "WN": "WhiteNoise"}
+COMPOSITES = [["SE", "SE"], ["SE", "SE", "WN"], ["RQ", "SE"], ["SE", "RQ"], ["CP"], ["CP", "WN"]]
 
 
 # ------------------------------------------------------------------------------------------ case -> objects
@@ -79,18 +80,36 @@ def build_data(case):
     return X, y, yerr
 
 
+# the c-th signal component of a composite kernel gets its own amplitude and length-scales (c = 0: the pattern itself)
+COMP_AMP = [1.0, 0.6, 1.4]
+COMP_LS = [[1.0, 1.0, 1.0], [1.7, 0.55, 1.3], [0.45, 1.9, 0.7]]
+
+
 def thetas(case, hp=None):
     d, xs, ys = case["d"], case["xs"], case["ys"]
-    a, ls = HP[hp or case["hp"]]
-    ls = [l * xs for l in ls[:d]]
+    a, ls0 = HP[hp or case["hp"]]
+    ls0 = [l * xs for l in ls0[:d]]
     kt = []
+    c = 0  # number of signal components so far
+
+    def se(c):
+        return [np.log(a * ys * COMP_AMP[c])] + [np.log(l * COMP_LS[c][i]) for i, l in enumerate(ls0)]
+
     for kd in case["kernel"]:
         if kd == "SE":
-            kt += [np.log(a * ys)] + [np.log(l) for l in ls]
+            kt += se(c)
+            c += 1
         elif kd == "RQ":
-            kt += [np.log(a * ys), np.log(1.7)] + [np.log(l) for l in ls]
+            t = se(c)
+            kt += [t[0], np.log(1.7)] + t[1:]
+            c += 1
         elif kd == "WN":
             kt += [np.log(0.15 * ys)]
+        elif kd == "CP":
+            # ChangePoint((SE, SE), axis=0): location inside the data range of axis 0, width a fraction of it
+            kt += se(c) + se(c + 1) + [1.4 * xs, 0.5 * xs]
+            c += 2
+    ls = ls0
     mk = case["mean"]
     mt = [MEAN_T0 * ys]
     if mk in ("L", "Q"):
@@ -100,15 +119,21 @@ def thetas(case, hp=None):
     return [float(v) for v in mt], [float(v) for v in kt], ls
 
 
+def make_kernel(kinds):
+    import inference.gp as G
+
+    ks = [G.ChangePoint(kernels=[G.SquaredExponential(), G.SquaredExponential()], axis=0) if k == "CP" else getattr(G, KNAME[k])() for k in kinds]
+    k = ks[0]
+    for o in ks[1:]:
+        k = k + o
+    return k
+
+
 def make_gp(case, X, y, yerr):
     import inference.gp as G
 
     def kern():
-        ks = [getattr(G, KNAME[k])() for k in case["kernel"]]
-        k = ks[0]
-        for o in ks[1:]:
-            k = k + o
-        return k
+        return make_kernel(case["kernel"])
 
     mt, kt, ls = thetas(case)
     theta = np.array(mt + kt)
@@ -406,11 +431,7 @@ def hist_queries(X, ls):
 def hist_new_gp(case, X, y, yerr, theta):
     import inference.gp as G
 
-    ks = [getattr(G, KNAME[k])() for k in case["kernel"]]
-    k = ks[0]
-    for o in ks[1:]:
-        k = k + o
-    kw = dict(kernel=k, mean=getattr(G, MEANS[case["mean"]])())
+    kw = dict(kernel=make_kernel(case["kernel"]), mean=getattr(G, MEANS[case["mean"]])())
     if yerr is not None:
         kw["y_err"] = yerr.copy()
     with lib("GpRegressor"):
@@ -594,7 +615,233 @@ def ev_history(case):
     }
 
 
-EVALUATORS = {"config": ev_config, "selftest": ev_selftest, "history": ev_history}
+# ------------------------------------------------------------------------------------------ histories with re-used caller arrays
+# The caller keeps ONE query array B and ONE hyper-parameter array T and re-uses them: between calls it overwrites their
+# contents in place and passes the same objects again.  Ops:
+#   ["G"] gradient(B)  ["S"] spatial_derivatives(B)  ["C"] __call__(B)        (B itself is passed, not a copy)
+#   ["Q", j] the contents of B become query set j, in place (j=0: B[...] = c; j=1: B += c - B; j=2: B *= 0, B += c)
+#   ["H", k] T[...] = theta_k in place, then set_hyperparameters(T)            (T is also the array given to the constructor)
+# After every query the result must equal that of a FRESH regressor (current contents of T, copied) for a COPY of the current
+# contents of B, and the calls must leave B and T as they were.
+IFORMS = ["(1,d)", "(2,d)", "(d,)"]
+
+
+def inplace_contents(X, ls, form):
+    pts = dict(query_points(X, ls))
+    d = X.shape[1]
+    if form == "(2,d)":
+        sets = [[pts["outside"], pts["between"]], [pts["between"], pts["centroid"]], [pts["data-point"], pts["far"]]]
+        return [np.array(s, dtype=float).reshape(2, d) for s in sets]
+    shape = (1, d) if form == "(1,d)" else (d,)
+    return [np.array(pts[nm], dtype=float).reshape(shape) for nm in ("between", "outside", "centroid")]
+
+
+# ["T", k]: T[...] = theta_k in place WITHOUT telling the regressor (the caller re-uses its array for something else): a fitted
+# regressor must go on predicting with the vector it was given.  The pinned tree keeps the caller's array by reference
+# (GpRegressor.set_hyperparameters: self.hyperpars = hyperpars), so its predictions then mix the new vector (kernel between
+# query and data, mean function) with the old one (alpha, L) - e.g. negative gradient variances.  Repair:
+# proposed_fixes/C16_hyperparameters-copied.patch.  The op is enumerated only when this switch is on (to be switched on
+# with the fix: commit; until then the limitation is listed among the assumptions).
+BEHIND_BACK = False
+
+
+def inplace_alphabet(behind_back=False):
+    return [["G"], ["S"], ["C"]] + [["Q", j] for j in range(3)] + [["H", k] for k in range(3)] + ([["T", k] for k in range(3)] if behind_back else [])
+
+
+def ev_inplace(case):
+    """every history that extends case['prefix'] up to case['depth'] ops, for one data set / kernel / mean / query-array form"""
+    from mc.ref import gpref_c as R
+
+    d, n, form = case["d"], case["n"], case["form"]
+    kname = "+".join(case["kernel"])
+    X, y, yerr = build_data(case)
+    TH3 = hist_thetas(case)
+    TH = [np.array(mt + kt) for mt, kt, _ in TH3]
+    CONT = inplace_contents(X, TH3[0][2], form)
+    refs = [R.RefGP(X.tolist(), y.tolist(), case["kernel"], kt, case["mean"], mt, None if yerr is None else yerr.tolist()) for mt, kt, _ in TH3]
+    if not all(r.ok for r in refs):
+        return {"fails": [], "n": 0, "skipped": {"in-place history: cond(G) > 1e10 for one of the hyper-parameter vectors": 1}}
+    fails, seen, tags, slack = [], {}, set(), {}
+    nev = [0]
+    fresh, scales = {}, {}
+
+    def text(ops):
+        nm = {"G": "gradient(B)", "S": "spatial_derivatives(B)", "C": "__call__(B)"}
+        return [nm[o[0]] if o[0] in nm else (f"B <- query set {o[1]} in place" if o[0] == "Q" else (f"T <- theta_{o[1]} in place; set_hyperparameters(T)" if o[0] == "H" else f"T <- theta_{o[1]} in place (regressor not told)")) for o in ops]
+
+    def bad(key, what, ops):
+        seen[key] = seen.get(key, 0) + 1
+        if seen[key] == 1:
+            fails.append(fail(key, what, history=text(ops), ops=ops, form=form, hyperparameters=[t.tolist() for t in TH], reproduce=dict(case, prefix=ops, depth=len(ops))))
+
+    def call(gp, kd, arg):
+        try:
+            if kd == "G":
+                with lib("gradient", allow=(NotImplementedError,)):
+                    r = gp.gradient(arg)
+            elif kd == "S":
+                with lib("spatial_derivatives", allow=(NotImplementedError,)):
+                    r = gp.spatial_derivatives(arg)
+            else:
+                with lib("__call__"):
+                    r = gp(arg)
+        except NotImplementedError:
+            return "NotImplementedError"
+        return tuple(np.asarray(a, float) for a in r)
+
+    def fresh_result(k, kd, Bc):
+        key = (k, kd, Bc.tobytes())
+        if key not in fresh:
+            gp = hist_new_gp(case, X, y, yerr, TH[k])
+            fresh[key] = call(gp, kd, Bc.copy())
+            nev[0] += 2
+        return fresh[key]
+
+    def scale(k, Bc):
+        key = (k, Bc.tobytes())
+        if key not in scales:
+            rows = [refs[k].predict([float(v) for v in p])["scales"] for p in Bc.reshape(-1, d)]
+            scales[key] = {
+                ("C", 0): np.array([S["mu"] for S in rows]),
+                ("C", 1): np.array([S["var"] for S in rows]),
+                ("G", 0): np.array([S["dmu"] for S in rows]),
+                ("G", 1): np.array([S["gcov"] for S in rows]),
+                ("S", 0): np.array([S["dmu"] for S in rows]),
+                ("S", 1): np.array([S["dvar"] for S in rows]),
+            }
+        return scales[key]
+
+    def compare(ops, kd, cur, cls, got, Bc, audit=False):
+        want = fresh_result(cur, kd, Bc)
+        where = f"after [{'; '.join(text(ops))}] (theta_{cur}, B = {Bc.tolist()}): {'(final audit) ' if audit else ''}{HOPS[kd]}(B)"
+        if isinstance(got, str) or isinstance(want, str):
+            if got != want if isinstance(got, str) and isinstance(want, str) else True:
+                bad(f"inplace/{kname}/{HOPS[kd]}/support/{cls}", f"{where} gave {got if isinstance(got, str) else 'a result'}, a fresh regressor {want if isinstance(want, str) else 'a result'}", ops)
+                return False
+            return True
+        ok = True
+        m = Bc.reshape(-1, d).shape[0]
+        for o, (g, w) in enumerate(zip(got, want)):
+            oname = HOUT[kd][o]
+            if g.shape != w.shape:
+                bad(f"inplace/{kname}/{HOPS[kd]}/{oname}-shape/{cls}", f"{where}: shape {g.shape}, a fresh regressor returns {w.shape}", ops)
+                ok = False
+                continue
+            sc = scale(cur, Bc)[(kd, o)]
+            if kd == "C" and o == 1:
+                g, w = g**2, w**2
+            try:
+                g2, w2 = g.reshape((m,) + sc.shape[1:]), w.reshape((m,) + sc.shape[1:])
+            except ValueError:
+                g2, w2, sc = g.reshape(-1), w.reshape(-1), float(sc.max())
+            tol = C_EPS * EPS * refs[cur].cond * sc
+            err = np.abs(g2 - w2)
+            r = float(np.max(err / tol)) if np.all(np.asarray(tol) > 0) else (0.0 if float(err.max()) == 0 else float("inf"))
+            r = r if r == r else float("inf")
+            nm = f"inplace/{HOPS[kd]}/{oname}-vs-fresh"
+            slack[nm] = max(slack.get(nm, 0.0), r)
+            if not r <= 1.0:
+                bad(f"inplace/{kname}/{HOPS[kd]}/{oname}-differs-from-fresh-regressor/{cls}",
+                    f"{where}: {oname} {g.tolist()} but a fresh regressor gives {w.tolist()} for a copy of B (max |diff|/tol {r:.3e})", ops)
+                ok = False
+        return ok
+
+    def run_history(ops):
+        T = TH[0].copy()
+        B = CONT[0].copy()
+        gp = hist_new_gp_noncopy(case, X, y, yerr, T)
+        cur = 0
+        asked = False  # has B been passed to the regressor with other contents before?
+        b_mod, t_mod, t_back = False, False, False
+        nontrivial = False
+
+        def query(kd, hist, audit=False):
+            Bc, Tc = B.copy(), T.copy()
+            got = call(gp, kd, B)
+            nev[0] += 1
+            okk = True
+            if not np.array_equal(B, Bc):
+                bad(f"inplace/{kname}/{HOPS[kd]}/query-array-changed-by-the-call", f"after [{'; '.join(text(hist))}]: B was {Bc.tolist()}, is {B.tolist()}", hist)
+                B[...] = Bc
+                okk = False
+            if not np.array_equal(T, Tc):
+                bad(f"inplace/{kname}/{HOPS[kd]}/hyperparameter-array-changed-by-the-call", f"after [{'; '.join(text(hist))}]: T was {Tc.tolist()}, is {T.tolist()}", hist)
+                T[...] = Tc
+                okk = False
+            cls = "+".join(c for c, f in (("query-array-rewritten-in-place", b_mod), ("hyperparameter-array-rewritten-in-place", t_mod),
+                                          ("hyperparameter-array-overwritten-without-set_hyperparameters", t_back)) if f) or "arrays-not-rewritten"
+            return compare(hist, kd, cur, cls, got, Bc, audit) and okk
+
+        for t, op in enumerate(ops):
+            if op[0] == "Q":
+                c = CONT[op[1]]
+                if op[1] == 0:
+                    B[...] = c
+                elif op[1] == 1:
+                    B += c - B
+                else:
+                    B *= 0.0
+                    B += c
+                b_mod = b_mod or asked
+                continue
+            if op[0] == "T":
+                t_back = t_back or not np.array_equal(T, TH[op[1]])
+                T[...] = TH[op[1]]
+                continue
+            if op[0] == "H":
+                T[...] = TH[op[1]]
+                t_back = False
+                Tc = T.copy()
+                with lib("set_hyperparameters"):
+                    gp.set_hyperparameters(T)
+                nev[0] += 1
+                if not np.array_equal(T, Tc):
+                    bad(f"inplace/{kname}/set_hyperparameters/hyperparameter-array-changed-by-the-call", f"after [{'; '.join(text(ops[:t+1]))}]: T was {Tc.tolist()}, is {T.tolist()}", ops[: t + 1])
+                    T[...] = Tc
+                cur = op[1]
+                t_mod = True
+                continue
+            nontrivial = nontrivial or b_mod or t_mod or t_back
+            if not query(op[0], ops[: t + 1]):
+                return False
+            asked = True
+        for kd in ("G", "S", "C"):
+            if not query(kd, ops + [[kd]], audit=True):
+                return False
+            asked = True
+        if b_mod or t_mod or t_back:
+            tags.add(f"inplace:{form}:" + ">".join(op[0] + (str(op[1]) if len(op) > 1 else "") for op in ops))
+        return True
+
+    alphabet = inplace_alphabet(case.get("behind_back", False))
+    count = 0
+    frontier = [[list(op) for op in case["prefix"]]]
+    while frontier:
+        nxt = []
+        for ops in frontier:
+            count += 1
+            if run_history(ops) and len(ops) < case["depth"]:
+                nxt += [ops + [op] for op in alphabet]
+        frontier = nxt
+    for f in fails:
+        f["occurrences_in_case"] = seen[f["key"]]
+    tags.add(f"inplace-config:k={kname},d={d},n={n},mean={case['mean']},noise={case['noise']},form={form}")
+    return {"fails": fails[:30], "n": nev[0], "tags": tags, "slack": slack, "sample": {"case": case, "histories": count, "cond": [r.cond for r in refs]}}
+
+
+def hist_new_gp_noncopy(case, X, y, yerr, T):
+    """a regressor whose hyper-parameter argument is the caller's own array T (which the caller goes on re-using)"""
+    import inference.gp as G
+
+    kw = dict(kernel=make_kernel(case["kernel"]), mean=getattr(G, MEANS[case["mean"]])())
+    if yerr is not None:
+        kw["y_err"] = yerr.copy()
+    with lib("GpRegressor"):
+        return G.GpRegressor(X.copy(), y.copy(), hyperpars=T, **kw)
+
+
+EVALUATORS = {"config": ev_config, "selftest": ev_selftest, "history": ev_history, "inplace": ev_inplace}
 
 
 def run(ck):
@@ -625,6 +872,14 @@ def run(ck):
     # kernels without gradient_terms: NotImplementedError accepted, a returned value must be right
     for kern, d, mean in itertools.product([["RQ"], ["SE", "WN"]], [1, 2], ["C", "L"]):
         cases.append({"d": d, "n": 6, "design": seed % 3, "mean": mean, "kernel": kern, "hp": "aniso", "noise": "uniform", "xs": 1.0, "ys": 1.0, "via": "ctor", "shift": 0})
+    # composite kernels (sums with several signal components, each with its own amplitude / length-scales; change-point of two SE):
+    # may decline, but a returned value must be the derivative of the prediction = sum of the component derivative kernels
+    chp = ["aniso", "unit", "short"]
+    for ki, kern in enumerate(COMPOSITES):
+        for d, mean in itertools.product([1, 2] if quick else [1, 2, 3], ["C", "L"] if quick else ["C", "L", "Q"]):
+            for hp in ([chp[(seed + ki + d) % 3]] if quick else chp):
+                cases.append({"d": d, "n": 6, "design": (seed + ki) % 3, "mean": mean, "kernel": kern, "hp": hp, "noise": ["uniform", "mixed"][(ki + d) % 2],
+                              "xs": 1.0, "ys": 1.0, "via": "ctor", "shift": 0, "forms": False})
     ck.run_cases("config", cases, chunk=2)
     # ---- call histories on one regressor: every sequence of <= depth calls, compared with fresh regressors after every call
     H4 = ["unit", "aniso", "short", "long"]
@@ -648,6 +903,19 @@ def run(ck):
             for pre in itertools.product(hist_alphabet(c), repeat=l):
                 hcases.append(dict(c, prefix=[list(o) for o in pre], depth=l if l < plen else dp))
     ck.run_cases("history", hcases, chunk=1)
+    # ---- histories in which the caller re-uses (overwrites in place) its query array and its hyper-parameter array
+    iconf = []
+    for i, (d, form) in enumerate(itertools.product([1, 2, 3], IFORMS)):
+        for mean in (["C", "L", "Q"][(i + seed) % 3],) if quick else ("C", "L", "Q"):
+            noise = ["uniform", "mixed"][(i + seed) % 2]
+            iconf.append({"d": d, "n": 6 if (i + seed) % 2 else 3, "design": (seed + i) % 3, "mean": mean, "kernel": ["SE"], "noise": noise, "xs": 1.0, "ys": 1.0,
+                          "shift": seed % 4, "hps": [H4[(seed + i + j) % 4] for j in range(3)], "form": form})
+    icases = []
+    for l in range(plen + 1):
+        for c in iconf:
+            for pre in itertools.product(inplace_alphabet(BEHIND_BACK), repeat=l):
+                icases.append(dict(c, prefix=[list(o) for o in pre], depth=l if l < plen else depth, behind_back=BEHIND_BACK))
+    ck.run_cases("inplace", icases, chunk=2)
     ck.rule = (
         "cartesian product d{1,2,3} x n{3,6[,10]} x design x mean{Constant,Linear,Quadratic} x hyper-parameter pattern{unit,aniso,short,long} x "
         "noise{none,uniform y_err,mixed y_err 1e-3..1} x (x,y) scale x route{constructor,set_hyperparameters}; 5 query points each (data point, between, "
@@ -658,10 +926,19 @@ def run(ck):
         "hyper-parameter vectors incl. different mean parameters [, marginal_likelihood(+gradient)(theta_k) in thorough]}; after every query, and for "
         "all three predictions after the last call, the result must equal that of a fresh regressor (same data, current hyper-parameters) within "
         "64*eps*cond*scale (observed: bit-identical). A history is counted by its call sequence if a query follows a hyper-parameter change, a repeated "
-        "query or a likelihood evaluation."
+        "query or a likelihood evaluation. Re-used caller arrays: for d{1,2,3} x query-array form{(1,d),(2,d),(d,)} every sequence of <= depth ops over {gradient(B), "
+        "spatial_derivatives(B), __call__(B), overwrite B in place with query set 0/1/2 (assignment, +=, *=0 then +=), overwrite T in place with theta_0/1/2 and "
+        "set_hyperparameters(T)} on ONE regressor, ONE query array B and ONE hyper-parameter array T (also the constructor argument): every result must equal that of "
+        "a fresh regressor for copies of the current contents, and B, T must be left unchanged by the calls. Composite kernels {SE+SE, SE+SE+WN, RQ+SE, SE+RQ, "
+        "ChangePoint(SE,SE), ChangePoint+WN} (each signal component with its own amplitude / length-scales) x d x mean x pattern are in the derivative lattice: "
+        "NotImplementedError is accepted, a returned value must pass every oracle against the reference (sum of the component derivative kernels)."
     )
     ck.assume("continuous inputs are represented by the listed finite lattice (d<=3, n<=10, scales 1e-3..1e3 in x, 1e-2..1e4 in y); data covariances with cond > 1e10 are skipped and counted")
     ck.assume("the library's relative 1e-12 diagonal regularisation of the data covariance is allowed for in the reference tolerance (2e-12*cond*scale); the Richardson oracle on the real __call__ is unaffected by it")
-    ck.assume("call histories: the caller never mutates an array after passing it (copies are passed); histories are bounded by the stated depth, three "
+    ck.assume("re-used caller arrays: a hyper-parameter array that was overwritten is always passed to set_hyperparameters again before the next query "
+              "(NOT asserted while BEHIND_BACK is off: that a regressor keeps its fitted state when the caller overwrites the array it passed WITHOUT calling "
+              "set_hyperparameters again - the pinned tree keeps that array by reference and then reports inconsistent predictions, e.g. negative gradient variances; "
+              "see proposed_fixes/C16_hyperparameters-copied.patch)")
+    ck.assume("call histories (first family): copies of the arrays are passed; histories are bounded by the stated depth, three "
               "hyper-parameter vectors and three queries per configuration; the fresh regressor each result is compared with is the object ev_config validates")
-    ck.assume("only SquaredExponential implements gradient_terms; RationalQuadratic and composite kernels decline with NotImplementedError, which the statement permits")
+    ck.assume("only SquaredExponential implements gradient_terms; RationalQuadratic, ChangePoint and composite kernels decline with NotImplementedError, which the statement permits (if they return, the result is checked)")
